@@ -33,6 +33,9 @@ def run(ctx):
     fallback_tag_part(ctx)
     for f in ctx.known():
         ctx.witness(f)
+    # what one template leaves behind (rejected templates, templates with options of their own) does not reach another
+    from .. import isolation
+    ctx.replays += isolation.run(ctx, "translation")
     ctx.exhaustive = True
     ctx.rule = ("translate elements with / without explicit id over text, interpolated, element, whitespace-only and empty "
                 "content; 1-3 i18n:name children under condition / repeat / omit-tag / tal:content; nested translations; "
